@@ -10,11 +10,19 @@ package conan
 //@   ensures result == 0 ==> a == b                       [C01]
 //@   ensures result == (a < b ? -1 : (a > b ? 1 : 0))     [C03 C08]
 
+// a part is a leading number followed by text: the numbers decide numerically, a part with a number sorts before one without
 //@ func naturalCompare
 //@   comparator a ~ b                                     [C01]
+//@   ensures numbers-decide: extractLeadingNumber(a) != "" && extractLeadingNumber(b) != "" && strconv.Atoi(extractLeadingNumber(a)).0 != strconv.Atoi(extractLeadingNumber(b)).0 ==> result == (strconv.Atoi(extractLeadingNumber(a)).0 < strconv.Atoi(extractLeadingNumber(b)).0 ? -1 : 1)   [C03]
+//@   ensures number-before-text: extractLeadingNumber(a) != "" && extractLeadingNumber(b) == "" ==> result == -1   [C03]
+//@   ensures same: a == b ==> result == 0   [C03]
 
+// position by position, a missing part counting as "0"; the first position where the parts differ decides
+//@ spec cpart(s []string, i int) string = i < len(s) ? s[i] : "0"
 //@ func compareVersionParts
 //@   comparator a ~ b                                     [C01]
+//@   ensures first-difference: forall k int :: 0 <= k && (k < len(a) || k < len(b)) && (forall j int :: 0 <= j && j < k ==> naturalCompare(cpart(a, j), cpart(b, j)) == 0) && naturalCompare(cpart(a, k), cpart(b, k)) != 0 ==> result == naturalCompare(cpart(a, k), cpart(b, k))   [C03]
+//@   ensures all-equal: (forall j int :: 0 <= j && (j < len(a) || j < len(b)) ==> naturalCompare(cpart(a, j), cpart(b, j)) == 0) ==> result == 0   [C03]
 
 //@ func comparePrerelease
 //@   comparator a ~ b                                     [C01]
@@ -85,3 +93,11 @@ package conan
 //@   ensures no-components: version.Compare(constraint) >= 0 && len(constraint.parts) == 0 ==> result   [C05]
 //@   ensures major-pinned: version.Compare(constraint) >= 0 && len(constraint.parts) >= 1 && !samePart(constraint.parts[0], "0") ==> result == samePart(partAt(version, 0), constraint.parts[0])   [C05]
 //@   ensures zero-major: version.Compare(constraint) >= 0 && len(constraint.parts) >= 2 && samePart(constraint.parts[0], "0") && !samePart(constraint.parts[1], "0") ==> result == (samePart(partAt(version, 0), constraint.parts[0]) && samePart(partAt(version, 1), constraint.parts[1]))   [C05]
+
+// ---- C20 for comparator constraints (tilde and caret are covered by the bounded obligations)
+//@ spec cmpOp(c constraint) bool = c.version != nil && (c.operator == "=" || c.operator == "!=" || c.operator == "<" || c.operator == "<=" || c.operator == ">" || c.operator == ">=")
+//@ lemma c20-equal [C20]: forall r *VersionRange, c constraint, v1, v2 *Version :: trigger(r.constraintSatisfied(c, v1), r.constraintSatisfied(c, v2)) && r != nil && v1 != nil && v2 != nil && cmpOp(c) && v1.Compare(v2) == 0 ==> r.constraintSatisfied(c, v1) == r.constraintSatisfied(c, v2)
+//@ lemma c20-convex [C20]: forall r *VersionRange, c constraint, a, b, d *Version :: trigger(r.constraintSatisfied(c, a), r.constraintSatisfied(c, d), a.Compare(b), b.Compare(d)) && r != nil && a != nil && b != nil && d != nil && cmpOp(c) && c.operator != "!=" && a.Compare(b) <= 0 && b.Compare(d) <= 0 && r.constraintSatisfied(c, a) && r.constraintSatisfied(c, d) ==> r.constraintSatisfied(c, b)
+// an AND group of comparator constraints treats versions that compare equal alike, and so does an OR of such groups
+//@ lemma c20-group-equal [C20] uses c20-equal: forall r *VersionRange, group []constraint, v1, v2 *Version :: r != nil && v1 != nil && v2 != nil && (forall i int :: 0 <= i && i < len(group) ==> cmpOp(group[i])) && v1.Compare(v2) == 0 ==> ((forall i int :: 0 <= i && i < len(group) ==> r.constraintSatisfied(group[i], v1)) == (forall i int :: 0 <= i && i < len(group) ==> r.constraintSatisfied(group[i], v2)))
+//@ lemma c20-range-equal [C20] uses c20-equal: forall r *VersionRange, v1, v2 *Version :: r != nil && v1 != nil && v2 != nil && (forall g int :: 0 <= g && g < len(r.orGroups) ==> (forall i int :: 0 <= i && i < len(r.orGroups[g]) ==> cmpOp(r.orGroups[g][i]))) && v1.Compare(v2) == 0 ==> ((exists g int :: 0 <= g && g < len(r.orGroups) && (forall i int :: 0 <= i && i < len(r.orGroups[g]) ==> r.constraintSatisfied(r.orGroups[g][i], v1))) == (exists g int :: 0 <= g && g < len(r.orGroups) && (forall i int :: 0 <= i && i < len(r.orGroups[g]) ==> r.constraintSatisfied(r.orGroups[g][i], v2))))
